@@ -55,6 +55,7 @@ fn main() {
         known: load_known(&known_path),
         start: Instant::now(),
         threads,
+        replaying: replay.is_some(),
     };
     let Some(prop) = vh::props::all().into_iter().find(|p| p.id == id) else {
         eprintln!("INCONCLUSIVE property={id} reason=no such check");
